@@ -100,7 +100,9 @@ def compile_case(c):
         if mode == 'noactive':
             C.emit(1, 'with SARE(reraise=%s, logger=LG(2)) as ctx:' % bool(c['r0']), 2)
             C.emit(2, 'TOP(ctx)')
-            comp_body(C, c['body'], 2, 'ctx', 0); C.emit(2, 'DONE()')
+            C.emit(2, 'try:')
+            comp_body(C, c['body'], 3, 'ctx', 0); C.emit(3, 'DONE()')
+            C.emit(2, 'except BaseException as _e:'); C.emit(3, 'BODYEXC(_e)'); C.emit(3, 'raise')
         else:
             C.emit(1, 'try:'); orig(2)
             C.emit(1, 'except BaseException:')
@@ -169,7 +171,8 @@ class Run:
         self.pred_seen = []      # (filter label, object handed to the predicate)
         self.completed = False; self.body_exc = None; self.top = None
         self.removed = []; self.fname = '<C09prog>'
-        self.cause_info = None; self.orig = None; self.path = None
+        self.cause_info = None; self.orig = None; self.path = None; self.path_exists = None
+        self.entry_exc = None; self.entry_tb = None; self.args_seen = []; self.given = None
 
     # helpers visible to the program
     def mk(self, c, l):
@@ -205,6 +208,11 @@ class Run:
             def meth(self_, ex): return pred(ex)
         return Holder().meth
     def arg(self, a, l):
+        r = self._arg(a, l)
+        cur = sys.exc_info()[1]
+        self.args_seen.append((l, r, cur, self.raw_frames(cur.__traceback__) if cur is not None else None))
+        return r
+    def _arg(self, a, l):
         cur = sys.exc_info()[1]
         if a == 0: return cur
         if a == 1: return self.mk(0, 2000 + l)
@@ -231,6 +239,18 @@ class Run:
             self.ex.raise_with_cause(cls, 'm', cause=g)
         else: self.ex.raise_with_cause(cls, 'm', cause=None)
 
+    def set_top(self, ctx):
+        self.top = ctx
+        cur = sys.exc_info()[1]
+        self.entry_exc = cur
+        self.entry_tb = self.raw_frames(cur.__traceback__) if cur is not None else None
+    def raw_frames(self, tb):
+        out = []
+        while tb is not None:
+            co = tb.tb_frame.f_code
+            out.append((co.co_filename, tb.tb_lineno, co.co_name))
+            tb = tb.tb_next
+        return out
     def nremoved(self):
         if self.case['op'] != 'rpoe': return 0
         if self.case['rm'] == 0: return 0 if self.path_exists else 1
@@ -281,7 +301,7 @@ class Run:
              'SARE': self.ex.save_and_reraise_exception, 'LG': lambda l: FakeLogger(l, self.logs),
              'FILT': lambda p, l: self.filt(p, l), 'FILTU': lambda p, l, u: self.filt(p, l, u),
              'ARG': self.arg, 'RPOE': self.rpoe, 'RWC': self.rwc,
-             'TOP': lambda ctx: setattr(run, 'top', ctx),
+             'TOP': self.set_top,
              'DONE': lambda: setattr(run, 'completed', True),
              'BODYEXC': lambda e: setattr(run, 'body_exc', e)}
         exec(compile(self.src, self.fname, 'exec'), g)
@@ -357,3 +377,44 @@ def canonical(run):
     if run.case['op'] == 'cause':
         parts.append('cause=' + run.describe(getattr(out, 'cause', None)) + '/' + run.describe(getattr(out, '__cause__', None)))
     return ' '.join(parts)
+
+def facts(run):
+    """model-free observations the oracle needs: identities (is), traceback containment, call counts"""
+    out = run.out
+    def suffix(entry, fin):
+        return entry is not None and fin is not None and len(entry) <= len(fin) and fin[len(fin) - len(entry):] == entry
+    fin = run.raw_frames(out.__traceback__) if out is not None else None
+    def names(e, a):
+        last = a[1][-1] if len(a) > 1 and isinstance(a[1], list) and a[1] else ''
+        if e is None: return False
+        return type(e).__name__ in last and (id(e) not in run.reg or ('s%d' % run.reg[id(e)]) in last)
+    f = {'completed': run.completed, 'out_none': out is None,
+         'out_is_orig': out is not None and out is run.orig,
+         'out_is_entry': out is not None and out is run.entry_exc,
+         'out_is_body_exc': out is not None and out is run.body_exc,
+         'body_raised': run.body_exc is not None,
+         'flag': None if run.top is None else bool(run.top.reraise),
+         'entry_tb_kept': suffix(run.entry_tb, fin),
+         'logs2': sum(1 for l, a in run.logs if l == 2), 'logs9': sum(1 for l, a in run.logs if l == 9),
+         'log2_names_entry': [names(run.entry_exc, a) for l, a in run.logs if l == 2],
+         'log9_names_body_exc': [names(run.body_exc, a) for l, a in run.logs if l == 9],
+         'out_label': run.reg.get(id(out)) if out is not None else None,
+         'out_class': type(out).__name__ if out is not None else None,
+         'body_exc_class': CLASSES.index(type(run.body_exc)) if type(run.body_exc) in CLASSES else None,
+         'body_exc_is_exception': isinstance(run.body_exc, Exception),
+         'pred2': [x is run.body_exc and x is not None for l, x in run.pred_seen if l == 2],
+         'pred2_n': sum(1 for l, x in run.pred_seen if l == 2),
+         'rm': run.nremoved()}
+    if run.case['op'] == 'call':
+        l, a, cur, curtb = run.args_seen[-1] if run.args_seen else (None, None, None, None)
+        f.update({'arg_none': a is None, 'arg_is_cur': a is not None and a is cur, 'out_is_arg': out is not None and out is a,
+                  'arg_class': CLASSES.index(type(a)) if type(a) in CLASSES else None,
+                  'cur_tb_kept': suffix(curtb, fin)})
+    if run.case['op'] == 'cause':
+        f.update({'cause_is_orig': getattr(out, 'cause', None) is run.orig and run.orig is not None,
+                  'dunder_is_orig': getattr(out, '__cause__', None) is run.orig and run.orig is not None,
+                  'cause_is_given': getattr(out, 'cause', None) is run.given and run.given is not None,
+                  'dunder_is_given': getattr(out, '__cause__', None) is run.given and run.given is not None,
+                  'cause_none': getattr(out, 'cause', 0) is None, 'dunder_none': getattr(out, '__cause__', 0) is None,
+                  'out_registered': id(out) in run.reg})
+    return f
